@@ -65,6 +65,8 @@ func runC18(p *core.Program, r *core.Report) {
 	c18Observers(p, r)
 	r.Rule("C18.escape-all", "the escaping of values on the way into the file is applied to every occurrence (strings.Replace with a negative count): written values read back unchanged", 1)
 	c18EscapeAll(p, r)
+	c18Decimal(p, r)
+	c18SyncWrite(p, r)
 	c18MapGuard(p, r)
 	c18Getters(p, r)
 	c18Trim(p, r)
